@@ -115,6 +115,32 @@ fn fill_fd_gaps(fallback: u64) -> (Vec<i32>, u64) {
     }
     (fillers, fallback)
 }
+/// While the descriptor limit is lowered, a descriptor freed by anything else in the process (a late close by an
+/// earlier scenario's threads) would let accept() succeed.  This thread takes every descriptor that becomes free
+/// (dup(0) fails with EMFILE as long as none is) within about a millisecond; accept() is retried only every 500 ms.
+fn start_plugger() -> (Arc<std::sync::atomic::AtomicBool>, std::thread::JoinHandle<Vec<i32>>) {
+    let stop = Arc::new(std::sync::atomic::AtomicBool::new(false));
+    let stop2 = stop.clone();
+    let h = std::thread::spawn(move || {
+        let mut got = Vec::new();
+        while !stop2.load(SeqCst) {
+            let f = unsafe { dup(0) };
+            if f >= 0 {
+                got.push(f);
+            } else {
+                std::thread::sleep(Duration::from_micros(500));
+            }
+        }
+        got
+    });
+    (stop, h)
+}
+fn stop_plugger(p: (Arc<std::sync::atomic::AtomicBool>, std::thread::JoinHandle<Vec<i32>>)) {
+    p.0.store(true, SeqCst);
+    if let Ok(fds) = p.1.join() {
+        close_all(fds);
+    }
+}
 fn close_all(fds: Vec<i32>) {
     for f in fds {
         unsafe { close(f) };
@@ -233,8 +259,10 @@ fn acc_case(toks: &[String]) -> (String, bool) {
             let (fillers, top_fd) = fill_fd_gaps(cur);
             let low = [top_fd.min(lim[0]), lim[1]];
             unsafe { setrlimit(RLIMIT_NOFILE, &low) };
+            let plug = start_plugger();
             std::thread::sleep(Duration::from_millis(200 + 500 * e));
             unsafe { setrlimit(RLIMIT_NOFILE, &lim) };
+            stop_plugger(plug);
             close_all(fillers);
             // the logger works again: everything queued and everything sent from now on is taken
             let drainer = std::thread::spawn(move || for _ev in rx {});
@@ -257,6 +285,7 @@ fn acc_case(toks: &[String]) -> (String, bool) {
             let low = [top_fd.min(lim[0]), lim[1]];
             let admitted_before = sh.admitted.load(SeqCst);
             unsafe { setrlimit(RLIMIT_NOFILE, &low) };
+            let plug = start_plugger();
             std::thread::sleep(Duration::from_millis(200 + 500 * e));
             if sh.admitted.load(SeqCst) != admitted_before {
                 // accept() succeeded under the lowered limit: a descriptor was freed meanwhile (a late close by an earlier
@@ -268,11 +297,13 @@ fn acc_case(toks: &[String]) -> (String, bool) {
                 pred.revoke();
                 step(&pred, &mut stopped, &mut out, &mut matched);
                 unsafe { setrlimit(RLIMIT_NOFILE, &lim) };
+                stop_plugger(plug);
                 close_all(fillers);
                 scratch_clients.push(client);
                 continue;
             }
             unsafe { setrlimit(RLIMIT_NOFILE, &lim) };
+            stop_plugger(plug);
             close_all(fillers);
             clients.push(client);
             pred.connect();
